@@ -28,7 +28,7 @@ def connVarBytes (bs : Bytes) : Option (Option Bytes × Bytes) :=
   match readVarint bs with
   | none => none
   | some (n, r) =>
-    if n ≤ 0 then some (none, r)
+    if n < 0 then some (none, r)                 -- null: nil; empty (0) is an empty non-nil slice since fix 4db07b4
     else match takeN n.toNat r with
       | some (b, r') => some (some b, r')
       | none => none
@@ -89,6 +89,18 @@ def connRecordsV2 (base first : Int) : Nat → Bytes → Option (List Rec × Byt
       | none => none
       | some (rs, rest') => some (r :: rs, rest')
 
+/-- `attributes & <mask> != 0` for the masks message_reader.go tests NOW (Gen/RecordConsts; the timestamp type since fix
+a925b8a / C02-D31) -/
+def connMaskTest (masks : List Nat) (a : Int) : Bool := masks.any fun m => (a / (m : Int)) % 2 = 1
+def connLogAppendV2 (a : Int) : Bool := connMaskTest Gen.RecordConsts.legacyStampMasksV2 a
+def connLogAppendV1 (a : Int) : Bool := connMaskTest Gen.RecordConsts.legacyStampMasksV1 a
+
+/-- readMessageV2: `if attributes&timestampTypeMask != 0 { timestamp = lastTimestamp }` on every record -/
+def connStampV2 (attributes lastTimestamp : Int) (x : Option (List Rec × Bytes)) : Option (List Rec × Bytes) :=
+  match x with
+  | none => none
+  | some (rs, rest) => some (rs.map (stamp (connLogAppendV2 attributes) lastTimestamp), rest)
+
 /-- one v2 batch: header fields in wire order (the CRC is read and ignored), then the records -/
 def connBatchV2 (dec : Int → Bytes → Option Bytes) (bs : Bytes) : Option (List Rec × Bytes) :=
   match readI64 bs with
@@ -113,7 +125,7 @@ def connBatchV2 (dec : Int → Bytes → Option Bytes) (bs : Bytes) : Option (Li
               if f.count < 0 then none
               else if connCodecOf f.attributes = 0 then
                 -- f.payload = everything after the header: the records are read from the stream itself
-                connRecordsV2 f.baseOffset f.firstTs f.count.toNat f.payload
+                connStampV2 f.attributes f.maxTs (connRecordsV2 f.baseOffset f.firstTs f.count.toNat f.payload)
               else
                 let batchRemain := len - 49
                 if batchRemain < 0 then none
@@ -124,14 +136,14 @@ def connBatchV2 (dec : Int → Bytes → Option Bytes) (bs : Bytes) : Option (Li
                     | none => none
                     | some p =>
                       match connRecordsV2 f.baseOffset f.firstTs f.count.toNat p with
-                      | some (rs, _) => some (rs, rest)
+                      | some (rs, _) => connStampV2 f.attributes f.maxTs (some (rs, rest))
                       | none => none
 
 def connBytes (bs : Bytes) : Option (Option Bytes × Bytes) :=
   match readI32 bs with
   | none => none
   | some (n, r) =>
-    if n ≤ 0 then some (none, r)
+    if n < 0 then some (none, r)                 -- readMessageBytes (fix 4db07b4): null is nil, empty is empty
     else match takeN n.toNat r with
       | some (b, r') => some (some b, r')
       | none => none
@@ -192,7 +204,7 @@ def lastOffsetOf : List Rec → Int
 def connMessageV1 (dec : Int → Bytes → Option Bytes) (bs : Bytes) : Option (List Rec × Bytes) :=
   match connHeaderV1 bs with
   | none => none
-  | some ((off, _, attrs, ts), r) =>
+  | some ((off, magic, attrs, ts), r) =>
     if connCodecOf attrs = 0 then
       match connPlainV1 off ts r with
       | none => none
@@ -217,7 +229,9 @@ def connMessageV1 (dec : Int → Bytes → Option Bytes) (bs : Bytes) : Option (
                 | some rs =>
                   -- extractOffset: base = wrapper offset − offset field of the last inner message
                   let base := off - lastOffsetOf rs
-                  some (rs.map fun x => { x with offset := x.offset + base }, rest)
+                  -- `hasLogAppendTime` of the pushed reader stack: wrapper magic 1 with the timestamp-type bit
+                  let on := decide (magic = 1) && connLogAppendV1 attrs
+                  some (rs.map fun x => stamp on ts { x with offset := x.offset + base }, rest)
 
 def connReadSet (dec : Int → Bytes → Option Bytes) : Nat → Bytes → Option (List Rec)
   | _, [] => some []
